@@ -10,3 +10,44 @@ package security
 //@   ensures[C18] length: result1 == nil ==> len(result0) == n
 //@   ensures[C18] failed: result1 != nil ==> result0 == "" && randFailed()
 //@   nopanic[C10]
+
+// ---------------------------------------------------------------- tunnel-side policy callbacks
+
+//@ define ctxTunnel(ctx) = dyn(ctxval(ctx, protocol.CtxTunnel), ptr(protocol.Tunnel))
+//@ define hasTunnel(ctx) = typeIs(ctxval(ctx, protocol.CtxTunnel), ptr(protocol.Tunnel)) && ctxTunnel(ctx) != nil
+//@ define ctxId(ctx) = dyn(ctxval(ctx, identity.CTXKey), ptr(identity.User))
+//@ define hasId(ctx) = typeIs(ctxval(ctx, identity.CTXKey), ptr(identity.User)) && ctxId(ctx) != nil
+//@ define tunnelUser(ctx) = dyn(ctxTunnel(ctx).User, ptr(identity.User))
+//@ define hostListed(host, user) = (exists k :: 0 <= k && k < len(Hosts) && strings.Replace(Hosts[k], "{{ preferred_username }}", user, 1) == host)
+
+//@ func CheckHost
+//@   requires[C10] tunnel: (HostSelection == "roundrobin" || HostSelection == "unsigned") ==> hasTunnel(ctx) && ctxTunnel(ctx).User != nil && tunnelUser(ctx) != nil
+//@   loop 0 invariant scanned: -1 <= rangeindex && rangeindex < len(Hosts) && (forall j :: 0 <= j && j <= rangeindex ==> strings.Replace(Hosts[j], "{{ preferred_username }}", tunnelUser(ctx).userName, 1) != host)
+//@   ensures[C03] any: HostSelection == "any" ==> result0
+//@   ensures[C03] signed: HostSelection == "signed" ==> !result0
+//@   ensures[C03] list: HostSelection == "roundrobin" || HostSelection == "unsigned" ==> result0 == (tunnelUser(ctx).userName != "" && hostListed(host, tunnelUser(ctx).userName))
+//@   ensures[C03] other: HostSelection != "any" && HostSelection != "signed" && HostSelection != "roundrobin" && HostSelection != "unsigned" ==> !result0
+//@   nopanic[C10]
+
+//@ func CheckSession$1
+//@   requires[C10] wf: *next != nil && hasId(ctx)
+//@   assigns #hostOK, #hostChecked
+//@   ensures[C03,C04] iff: result0 == (hasTunnel(ctx) && ctxTunnel(ctx).TargetServer == host && (!VerifyClientIP || box(ctxTunnel(ctx).RemoteAddr) == ctxId(ctx).attributes["clientIp"]) && #hostOK)
+//@   ensures[C03] policy: result0 ==> #hostOK && #hostChecked == host
+//@   nopanic[C10]
+
+//@ func CheckPAACookie
+//@   requires[C10] wf: hasTunnel(ctx) && ctxTunnel(ctx).User != nil && tunnelUser(ctx) != nil
+//@   assigns[C07] ctxTunnel(ctx).TargetServer, ctxTunnel(ctx).RemoteAddr, tunnelUser(ctx).userName
+//@   assigns #lastNow, #parsedTok, #parsedFrom, #macOK, #macTok, #macKey, #claimsStd, #claimsExtra, #validatedOK, #validatedIssuer, #validatedAt, #userinfoOK, #userinfoToken, #tokenSourceAT
+//@   loop 0 invariant hdr: -1 <= rangeindex && rangeindex < len(token.Headers)
+//@   ensures[C02] parsed: result0 ==> tokenString != "" && #parsedFrom == tokenString && #parsedTok != nil
+//@   ensures[C02] mac: result0 ==> #macOK && #macTok == #parsedTok && #macKey == old(SigningKey)
+//@   ensures[C02] validated: result0 ==> #validatedOK && #validatedIssuer == "rdpgw" && #validatedAt == #lastNow
+//@   ensures[C02] userinfo: result0 ==> #userinfoOK && #userinfoToken == dyn(#claimsExtra, ptr(customClaims)).AccessToken
+//@   ensures[C02] noerr: result0 == (result1 == nil)
+//@   ensures[C04] bound: result0 ==> ctxTunnel(ctx).RemoteAddr == dyn(#claimsExtra, ptr(customClaims)).ClientIP && ctxTunnel(ctx).TargetServer == dyn(#claimsExtra, ptr(customClaims)).RemoteServer
+//@   ensures[C07] untouched: !result0 ==> ctxTunnel(ctx).TargetServer == old(ctxTunnel(ctx).TargetServer) && ctxTunnel(ctx).RemoteAddr == old(ctxTunnel(ctx).RemoteAddr)
+//@   site (github.com/go-jose/go-jose/v4/jwt.Claims).Validate requires[C02] verifiedClaims: arg0 == *dyn(#claimsStd, ptr(jwt.Claims)) && arg1.Issuer == "rdpgw"
+//@   site (*golang.org/x/oauth2.Config).TokenSource requires[C02] embeddedToken: arg2.AccessToken == dyn(#claimsExtra, ptr(customClaims)).AccessToken
+//@   nopanic[C10]
